@@ -3,7 +3,7 @@
    the lexer model, the parser model and the listener model turn back into the model in canonical form (relations in name
    order, rewrites normalised, restrictions kept exactly where a direct assignment is). *)
 From Coq Require Import Lia Permutation.
-From Verif Require Import Base.Str Base.Outcome Model.Ast Model.Token Model.Lexer Model.Parser Model.Listener Model.Printer Model.Transform
+From Verif Require Import Spec.DocDomain Base.Str Base.Outcome Model.Ast Model.Token Model.Lexer Model.Parser Model.Listener Model.Printer Model.Transform
   Spec.Sem Spec.Expressible Spec.Normalize Proofs.PrinterExpressible Proofs.Lossless Proofs.SortFacts Proofs.ParserComplete Proofs.LexRender Proofs.RoundTripChars Proofs.DocLex Proofs.DocParse
   Proofs.DocChars Proofs.DocSem Proofs.DocPrepass Proofs.DocPrint.
 
@@ -27,16 +27,6 @@ Proof.
 Qed.
 
 (* ---- what comes back ---- *)
-Definition canon_meta (td : typedef) (n : str) : rel_meta :=
-  {| rm_types := if (count_direct (u_of td n) =? 0)%nat then [] else refs_of td n; rm_module := []; rm_file := None |}.
-Definition canon_td (td : typedef) : typedef :=
-  {| td_name := td_name td;
-     td_rels := map (fun n => (n, normalize (u_of td n))) (sorted_names td);
-     td_meta := match sorted_names td with
-                | [] => None
-                | ns => Some {| tm_rels := map (fun n => (n, canon_meta td n)) ns; tm_module := []; tm_file := None |}
-                end |}.
-
 Lemma sem_type_of td : td_ok td -> sem_type false [] (type_of td) = canon_td td.
 Proof.
   intros (_ & _ & Hrels). unfold sem_type, type_of, canon_td. cbn [ty_name ty_rels ty_extend name_tok ttext]. rewrite !map_map.
